@@ -29,7 +29,8 @@ inductive LogDelta (s t : State) : Prop
       t.cbLog = s.cbLog ++ [⟨"recv", p.port, p.key⟩] → RecvOk H s.core p π h → p.dst = s.core.name →
       (t.core.ps.receipt p.key = true ∨ p.seq ≤ t.core.ps.clean p.pair) → LogDelta s t
   | ack (p : Packet) (a : Data) (π : Proof) (h : Nat) :
-      t.cbLog = s.cbLog ++ [⟨"ack", p.port, p.key⟩] → AckOk H s.core p a π h → LogDelta s t
+      t.cbLog = s.cbLog ++ [⟨"ack", p.port, p.key⟩] → AckOk H s.core p a π h →
+      p.src = s.core.name → t.core = (ackWrites H s.core p a).1 → LogDelta s t
 
 theorem recvWrites_receipt (s : Core) (p : Packet) : (recvWrites H s p).1.ps.receipt p.key = true := by
   unfold recvWrites
@@ -82,10 +83,15 @@ theorem msgAcknowledgement_log (s : State) (p : Packet) (a : Data) (π : Proof) 
   split
   · exact .same rfl
   · rcases acknowledgePacket_cases H s.core p a π h with ⟨hok, e⟩ | ⟨_, e', e⟩
-    · split
+    · rw [e]
+      split
       · exact .same rfl
       · split
-        · exact .ack p a π h rfl hok
+        · rename_i c heq hsrc
+          refine .ack p a π h rfl hok (by simpa using hsrc) ?_
+          show c = _
+          have := congrArg Prod.fst heq
+          exact this.symm
         · exact .same rfl
     · rw [e]; exact .same rfl
 
